@@ -57,12 +57,12 @@ def simulator_traces(S, tier, with_store=False):
             yield "%s %s" % (meth, run.label()), S.I.trace[n0:], S.I.problems[p0:], raised, run
 
 
-def build_vbf(S, dim, reset, n_threads=None):
+def build_vbf(S, dim, reset, n_threads=None, **extra):
     mod = S.module(IBO)
     cls = mod.vars["VirtualBoundaryForcing"]
     inst = S.I.call(cls, [], dict(virtual_boundary_stiffness_coeff=sym("k_stiff"), virtual_boundary_damping_coeff=sym("k_damp"),
                                   grid_dim=dim, dx=sym("dx"), num_lag_nodes=sym("N"), real_t=S.real_t,
-                                  enable_eul_grid_forcing_reset=reset, num_threads=sym("num_threads")), None, mod)
+                                  enable_eul_grid_forcing_reset=reset, num_threads=sym("num_threads"), **extra), None, mod)
     return inst
 
 
